@@ -715,6 +715,9 @@ class Evaluator(object):
             if len(args) == 3:
                 return args[2]
             raise _Raise("AttributeError")
+        if fname in ("any", "all") and len(args) == 1 and isinstance(args[0], L) and not kwargs:
+            truths = [self.truth(x) for x in args[0].elts]
+            return K(any(truths) if fname == "any" else all(truths))
         if fname == "str" and len(args) == 1:
             a = args[0]
             if isinstance(a, K):
